@@ -165,6 +165,10 @@ type renderer struct {
 	col  int
 	lay  Layout
 	pos  map[string][]Pos
+	// statements already on an event endpoint (delivery calls of subscriptions rendered earlier, earlier
+	// bodies), by "App.Event": the statements of a body declared later are numbered after them
+	evCount map[string]int
+	stmtOff int
 }
 
 func (r *renderer) w(s string) {
@@ -461,12 +465,28 @@ func (r *renderer) endpoint(a *App, e *Endpoint) {
 		r.ind(depth + 1)
 		r.w("...\n")
 	}
+	if r.evCount == nil {
+		r.evCount = map[string]int{}
+	}
+	r.stmtOff = 0
+	switch e.Kind {
+	case "event":
+		key := AppKey(a.Name) + "." + e.Name
+		r.stmtOff = r.evCount[key]
+		r.evCount[key] += len(e.Stmts)
+	case "subscribe":
+		r.evCount[AppKey(e.Source)+"."+e.Name]++
+	}
 	r.stmts(ek, "", depth+1, e.Stmts)
+	r.stmtOff = 0
 }
 
 func (r *renderer) stmts(ek, prefix string, depth int, ss []*Stmt) {
 	for i, s := range ss {
 		p := fmt.Sprintf("%s%d", prefix, i)
+		if prefix == "" {
+			p = fmt.Sprint(i + r.stmtOff)
+		}
 		r.ind(depth)
 		r.mark("stmt " + strings.TrimPrefix(ek, "ep ") + " " + p)
 		at := renderAttrs(s.Attrs)
@@ -738,7 +758,29 @@ func Intended(s *Spec) Summary {
 					out = append(out, l)
 				}
 			}
-			stmtLines(&out, an, en, "", e.Stmts)
+			if e.Kind == "event" && impliedCount[an+"."+e.Name] > 0 {
+				// subscriptions compiled before this declaration already put their delivery calls on the
+				// event: the body's statements follow them
+				off := impliedCount[an+"."+e.Name]
+				var own Summary
+				stmtLines(&own, an, en, "", e.Stmts)
+				pre := "stmt " + en + " "
+				for _, l := range own {
+					rest := strings.TrimPrefix(l, pre)
+					j := 0
+					for j < len(rest) && rest[j] >= '0' && rest[j] <= '9' {
+						j++
+					}
+					var n int
+					fmt.Sscan(rest[:j], &n)
+					out = append(out, fmt.Sprintf("%s%d%s", pre, n+off, rest[j:]))
+				}
+			} else {
+				stmtLines(&out, an, en, "", e.Stmts)
+			}
+			if e.Kind == "event" {
+				impliedCount[an+"."+e.Name] += len(e.Stmts)
+			}
 			if len(e.Stmts) == 0 {
 				add("stmt %s 0 action %q", en, "...")
 			}
